@@ -476,13 +476,17 @@ fn main() {
         let thorough = args.thorough();
         let n = args.cases(200_000, 4_000_000);
         run_cases(&args, "c17", n, &mut rep, |i, rng, rep| {
-            match i % 40 {
-                0 if i % 400 == 0 => case_small_atoms(rng, rep),
-                1 if i % 400 == 1 => case_deep(rng, rep, thorough),
-                2..=7 => case_dag(rng, rep, thorough),
-                8..=13 => case_history(rng, rep),
-                14..=19 => case_curry(rng, rep),
-                20..=22 => case_tree_hasher(rng, rep),
+            // the case kind is drawn from the case's own rng (an `i % k` rule would tie kinds to shards:
+            // with 16 shards all deep-spine cases would land in one of them)
+            let _ = i;
+            match rng.below(4000) {
+                0..=9 => case_small_atoms(rng, rep),
+                10..=14 => case_deep(rng, rep, thorough),
+                15..=19 if !thorough => case_deep(rng, rep, thorough),
+                20..=619 => case_dag(rng, rep, thorough),
+                620..=1219 => case_history(rng, rep),
+                1220..=1819 => case_curry(rng, rep),
+                1820..=2119 => case_tree_hasher(rng, rep),
                 _ => case_random_tree(rng, rep),
             }
         });
